@@ -41,10 +41,10 @@ def main():
     for sid in ids:
         d = "%s/seeded/%s" % (VERIF, sid)
         meta = json.load(open(d + "/meta.json"))
-        sh("git checkout -q -- . ; git clean -fdq ; git checkout -q --detach %s" % head, cwd=WT)
+        sh("git reset -q --hard ; git clean -fdq ; git checkout -q --detach %s" % head, cwd=WT)
         rc, out = sh("git apply %s/patch.diff" % d, cwd=WT)
         if rc != 0:
-            rc, out = sh("git checkout -q -- . ; git apply -3 %s/patch.diff && git reset -q" % d, cwd=WT)
+            rc, out = sh("git reset -q --hard ; git apply -3 %s/patch.diff && git reset -q" % d, cwd=WT)
         if rc != 0:
             print("%s: PATCH DOES NOT APPLY at %s" % (sid, head[:7]))
             bad.append(sid)
